@@ -386,3 +386,4 @@ if _os.path.exists(_cal):
 # inconclusive reasons that must stay rare: more than this many turns the run into INCONCLUSIVE (exit 2)
 PROPS["C16"]["max_inconclusive"] = {"call-stuck-without-deadlock-witness": 0}
 PROPS["C05"]["max_inconclusive"] = {"cli-run-stopped-by-watchdog": 0}
+PROPS["C18"]["max_inconclusive"] = {"cli-run-failed-or-timed-out": 0}
